@@ -18,8 +18,9 @@ f = st.floats
 def surface_strategy():
     glass = st.one_of(
         st.none(), st.none(),
-        st.sampled_from([g for g in GL.glasses() if ' ' not in g['name']]).map(
-            lambda g: dict(name=g['name'], file=g['file'], known=True, nd=1.6, vd=50.0)),
+        # a catalogue glass, as the full GLAS line or as the short one that carries the name only
+        st.tuples(st.sampled_from([g for g in GL.glasses() if ' ' not in g['name']]), st.sampled_from([False, False, True])).map(
+            lambda t: dict(name=t[0]['name'], file=t[0]['file'], known=True, nd=1.6, vd=50.0, bare=t[1])),
         st.tuples(st.integers(0, 99), f(1.45, 1.85), f(25.0, 65.0)).map(
             lambda t: dict(name='ZQX%02dW' % t[0], known=False, nd=round(t[1], 6), vd=round(t[2], 4))))
     # curvature: exactly zero, or a radius of at most 1e6 (vanishing non-zero curvatures are a number-format corner,
@@ -201,6 +202,8 @@ class C20(Check):
             elif gl.get('known'):
                 n_glass += 1
                 out.cls('catalogue_glass')
+                if gl.get('bare'):
+                    out.cls('glass_line_with_name_only')
                 okm = isinstance(m, Material) and m.material_data.get('filename') == gl['file']
                 out.expect('medium', okm, surface=i, glass=gl['name'], got=type(m).__name__,
                            got_file=getattr(m, 'material_data', {}).get('filename') if isinstance(m, Material) else None)
